@@ -3,6 +3,7 @@ package an
 import (
 	"go/constant"
 	"go/token"
+	"go/types"
 	"sort"
 	"strings"
 
@@ -45,6 +46,9 @@ type H06Opt struct {
 	Prune func(b *ssa.BasicBlock, succ int) bool
 	// Inclusive starts the search at `from` itself instead of just after it (search from a function's entry).
 	Inclusive bool
+	// Facts are invariant valuations (true of a value whenever it is computed, e.g. "the result of errors.New is not
+	// nil"): consulted after what is known on the path and after Env, and never forgotten on a second execution.
+	Facts H06Env
 }
 
 type h06known struct {
@@ -94,7 +98,13 @@ func H06Escape(from ssa.Instruction, opt H06Opt) ([]*ssa.BasicBlock, bool) {
 			if k, ok := kn.get(v); ok {
 				return k, true
 			}
-			return base(v)
+			if k, ok := base(v); ok {
+				return k, true
+			}
+			if opt.Facts != nil {
+				return opt.Facts(v)
+			}
+			return nil, false
 		}
 	}
 	var walk func(b *ssa.BasicBlock, idx int, kn *h06known) bool
@@ -176,7 +186,27 @@ func H06Escape(from ssa.Instruction, opt H06Opt) ([]*ssa.BasicBlock, bool) {
 						nk = &h06known{v: bin.Y, k: c.Value, next: nk}
 					}
 				}
+				if bin, ok := v.(*ssa.BinOp); ok && (bin.Op == token.EQL || bin.Op == token.NEQ) {
+					// x == nil / x != nil: the nil-ness of x holds on this edge
+					var x ssa.Value
+					if IsNilConst(bin.Y) && !isBasic(bin.Y.Type()) {
+						x = bin.X
+					} else if IsNilConst(bin.X) && !isBasic(bin.X.Type()) {
+						x = bin.Y
+					}
+					if x != nil {
+						k := H06NonNil
+						if (bin.Op == token.EQL) == truth {
+							k = H06Nil
+						}
+						nk = &h06known{v: x, k: k, next: nk}
+						if u := Unwrap(x); u != x {
+							nk = &h06known{v: u, k: k, next: nk}
+						}
+					}
+				}
 			}
+			edgeKn := nk
 			// values computed in s are computed anew: forget what was learnt about a previous execution
 			for h := nk; h != nil; h = h.next {
 				if in, ok := h.v.(ssa.Instruction); ok && in.Block() == s {
@@ -218,7 +248,11 @@ func H06Escape(from ssa.Instruction, opt H06Opt) ([]*ssa.BasicBlock, bool) {
 					if !ok {
 						break
 					}
-					if k, ok := H06Eval(ph.Edges[pi], env); ok {
+					k, ok := H06Eval(ph.Edges[pi], env)
+					if !ok && learn != nil {
+						k, ok = H06Eval(ph.Edges[pi], envOf(edgeKn)) // what the branch just taken established
+					}
+					if ok && !h06Runaway(ph.Edges[pi], k) {
 						nk = &h06known{v: ph, k: k, next: nk}
 					} else if _, had := nk.get(ph); had || baseHas(base, ph) {
 						// the phi takes an unknown value on this edge: forget what was known (mask with Unknown)
@@ -386,8 +420,21 @@ func h06eval(v ssa.Value, env H06Env, d int) (constant.Value, bool) {
 				return constant.MakeBool(!constant.BoolVal(b)), true
 			}
 		}
+	case *ssa.Call:
+		// len of a slice of a whole fixed-size array (a slice literal), or of an array
+		if b, ok := x.Call.Value.(*ssa.Builtin); ok && b.Name() == "len" && len(x.Call.Args) == 1 {
+			if n, ok := h06FixedLen(x.Call.Args[0]); ok {
+				return constant.MakeInt64(n), true
+			}
+		}
 	case *ssa.BinOp:
 		switch x.Op {
+		case token.ADD, token.SUB:
+			l, ok1 := h06eval(x.X, env, d+1)
+			r, ok2 := h06eval(x.Y, env, d+1)
+			if ok1 && ok2 && l.Kind() == constant.Int && r.Kind() == constant.Int && isBasic(x.Type()) {
+				return constant.BinaryOp(l, x.Op, r), true
+			}
 		case token.EQL, token.NEQ, token.LSS, token.LEQ, token.GTR, token.GEQ:
 			l, ok1 := h06eval(x.X, env, d+1)
 			r, ok2 := h06eval(x.Y, env, d+1)
@@ -411,6 +458,54 @@ func h06eval(v ssa.Value, env H06Env, d int) (constant.Value, bool) {
 		}
 	}
 	return nil, false
+}
+
+// h06Runaway: a counter computed by arithmetic (not a literal constant) that has grown large: a loop with an unknown
+// bound is not unrolled any further, its counter becomes unknown.
+func h06Runaway(edge ssa.Value, k constant.Value) bool {
+	if _, isConst := edge.(*ssa.Const); isConst || k.Kind() != constant.Int {
+		return false
+	}
+	n, exact := constant.Int64Val(k)
+	return !exact || n > 16 || n < -16
+}
+
+// h06FixedLen: the length of v is a compile-time constant: an array, a pointer to one, or a slice `a[:]` of a whole
+// array that is never re-sliced (the shape of a slice literal).
+func h06FixedLen(v ssa.Value) (int64, bool) {
+	for i := 0; i < 4; i++ {
+		switch x := v.(type) {
+		case *ssa.Slice:
+			if x.Low != nil || x.High != nil || x.Max != nil {
+				return 0, false
+			}
+			if p, ok := x.X.Type().Underlying().(*types.Pointer); ok {
+				if a, ok := p.Elem().Underlying().(*types.Array); ok {
+					return a.Len(), true
+				}
+			}
+			return 0, false
+		case *ssa.UnOp:
+			// a local slice variable assigned exactly once (`variants := []T{...}`)
+			al, ok := x.X.(*ssa.Alloc)
+			if x.Op != token.MUL || !ok {
+				return 0, false
+			}
+			src := UniqueStore(al)
+			if src == nil {
+				return 0, false
+			}
+			v = src
+		case *ssa.ChangeType:
+			v = x.X
+		default:
+			if a, ok := v.Type().Underlying().(*types.Array); ok {
+				return a.Len(), true
+			}
+			return 0, false
+		}
+	}
+	return 0, false
 }
 
 // ---------------------------------------------------------------------------------------------
